@@ -322,7 +322,8 @@ def rule_entityinfo(run):
     line = ex.node.lineno
     for st in ex.node.body:  # top level of the body only: must not be conditional
         if isinstance(st, ast.For) and "_entity_infos" in P.T(st.iter):
-            if any(isinstance(c.func, ast.Attribute) and c.func.attr == "_discard_instantiation" for c in calls_in(st)):
+            # the call is a direct statement of the loop body: every registered info is discarded, whatever its state
+            if any(isinstance(x, ast.Expr) and isinstance(x.value, ast.Call) and isinstance(x.value.func, ast.Attribute) and x.value.func.attr == "_discard_instantiation" for x in st.body):
                 ok = True
                 line = st.lineno
     early_exit = any(isinstance(n, ast.Return) for n in walk_local(ex.node))
@@ -426,7 +427,127 @@ def rule_order(run):
     run.end()
 
 
-RULES = [rule_pairing, rule_kinds, rule_entityinfo, rule_return_stack, rule_order]
+def rule_dynamic_ports(run):
+    run.begin(
+        "C11.ports",
+        "ports added while an architecture is evaluated (std.add_entity_port) are removed before the next build: the "
+        "snapshot of the static ports lives from its creation until _discard_dynamic_ports consumes it - nothing else "
+        "clears or replaces it; the restore deletes exactly the ports that are not in the snapshot",
+        floor=5,
+    )
+    idx = run.idx
+    ctx = idx.mod("cohdl/_core/_context.py")
+    ddp = ctx.func("EntityInfo._discard_dynamic_ports")
+    # which attribute is the snapshot: the one _discard_dynamic_ports tests membership against
+    snaps = {b["__s"] for _n, b in P.find(ddp.node, "__p in self.__s")} | {x.attr for x in ast.walk(ddp.node) if isinstance(x, ast.Attribute) and dotted(x.value) == "self" and "non_dynamic" in x.attr}
+    snaps = {x for x in snaps if isinstance(x, str)}
+    if len(snaps) != 1:
+        raise AnalysisError(f"_discard_dynamic_ports: snapshot attribute not recognised ({snaps})")
+    snap = next(iter(snaps))
+    writers = []
+    for m in idx.all_modules("cohdl/"):
+        for q, g in m.functions.items():
+            for a in walk_local(g.node):
+                tg = a.targets if isinstance(a, ast.Assign) else [a.target] if isinstance(a, (ast.AnnAssign, ast.AugAssign)) else []
+                for t in tg:
+                    if isinstance(t, ast.Attribute) and t.attr == snap:
+                        writers.append((m, q, a))
+    allowed = {"EntityInfo.__init__": "initial None", "EntityInfo._discard_dynamic_ports": "consumed", "Entity.__init__": "created before the architecture runs"}
+    for m, q, a in writers:
+        ok = m is ctx and q in allowed
+        run.ob(ok, f"{m.rel.split('/')[-1]}::{q}", file=m.rel, line=a.lineno, detail=f"writes-{snap}", expected="only the initialiser, the creator (Entity.__init__) and the consumer write the snapshot",
+               found=allowed.get(q, "the snapshot is cleared/replaced before _discard_dynamic_ports can use it: dynamic ports survive into the next build"))
+    init = ctx.func("Entity.__init__")
+    crt = [a for m, q, a in writers if q == "Entity.__init__"]
+    ok = len(crt) == 1 and isinstance(crt[0].value, ast.Call) and dotted(crt[0].value.func) in ("set", "list", "frozenset", "tuple") and src(crt[0].value.args[0]).endswith(".ports")
+    run.ob(ok, "Entity.__init__", file=ctx.rel, line=(crt[0].lineno if crt else init.node.lineno), detail="snapshot-created", expected=f"info.{snap} = set(info.ports) (a copy of the static port names)", found=src(crt[0]) if crt else "missing")
+    if crt:
+        calls = [c for c in calls_in(init.node) if isinstance(c.func, ast.Attribute) and c.func.attr == "_discard_dynamic_ports"]
+        ok = len(calls) == 1 and calls[0].lineno < crt[0].lineno
+        run.ob(ok, "Entity.__init__", file=ctx.rel, line=init.node.lineno, detail="restore-before-snapshot", expected="ports of an earlier build are removed before the new snapshot is taken", found="ok" if ok else "order changed / missing")
+    # the consumer: deletes every port not in the snapshot, then clears the snapshot
+    dels = [d for d in walk_local(ddp.node) if isinstance(d, ast.Delete) and any("ports[" in src(t) for t in d.targets)]
+    ok = False
+    if dels:
+        from .c07 import guards as _guards
+        g = _guards(ddp.node, dels[0], ctx.parents)
+        ok = any(x == f"if self.{snap} is not None" for x in g) and (any(x == f"unless port_name in self.{snap}" for x in g) or any(x == f"if port_name not in self.{snap}" for x in g)) and len(g) == 2
+        found = str([str(x) for x in g])
+    else:
+        found = "no deletion"
+    run.ob(ok, "EntityInfo._discard_dynamic_ports", file=ctx.rel, line=ddp.node.lineno, detail="restore", expected="delete every port that is not in the snapshot (when a snapshot exists)", found=found)
+    loops = [l for l in walk_local(ddp.node) if isinstance(l, ast.For)]
+    ok = bool(loops) and isinstance(loops[0].iter, ast.Call) and dotted(loops[0].iter.func) in ("list", "tuple") and src(loops[0].iter.args[0]) == "self.ports"
+    run.ob(ok, "EntityInfo._discard_dynamic_ports", file=ctx.rel, line=ddp.node.lineno, detail="iterates-copy", expected="for port_name in list(self.ports) (all ports, over a copy)", found=src(loops[0].iter) if loops else "no loop")
+    run.end()
+
+
+def rule_definition_purge(run):
+    run.begin(
+        "C11.purge",
+        "function definitions cached during a compilation are removed at its end: the purge examines EVERY entry of the "
+        "cache that was not in the snapshot taken at the start (iterating the cache, or the difference cache - snapshot)",
+        floor=3,
+    )
+    idx = run.idx
+    pa = idx.mod("cohdl/_compiler/frontend/_prepare_ast.py")
+    ex = pa.func("ConvertPythonInstance.__exit__")
+    en = pa.func("ConvertPythonInstance.__enter__")
+    CACHE = "FunctionDefinition._known_definitions"
+    snap = [dotted(a.targets[0]) for a in walk_local(en.node) if isinstance(a, ast.Assign) and CACHE in src(a.value) and (dotted(a.targets[0]) or "").startswith("self.")]
+    if len(snap) != 1:
+        raise AnalysisError("ConvertPythonInstance.__enter__: snapshot of the definition cache not found")
+    snap = snap[0]
+    sv = [a.value for a in walk_local(en.node) if isinstance(a, ast.Assign) and dotted(a.targets[0]) == snap][0]
+    ok = isinstance(sv, ast.Call) and dotted(sv.func) in ("set", "frozenset", "list", "dict", "tuple") and dotted(sv.args[0]) == CACHE
+    run.ob(ok, "ConvertPythonInstance.__enter__", file=pa.rel, line=en.node.lineno, detail="snapshot-is-copy", expected=f"{snap} = set({CACHE})", found=src(sv)[:80])
+    dels = [d for d in walk_local(ex.node) if isinstance(d, ast.Delete) and any(CACHE in src(t) for t in d.targets)]
+    if len(dels) != 1:
+        raise AnalysisError("ConvertPythonInstance.__exit__: purge of the definition cache not found")
+    loop = None
+    for anc in pa.parents.ancestors(dels[0]):
+        if isinstance(anc, ast.For):
+            loop = anc
+            break
+    if loop is None:
+        raise AnalysisError("purge loop not found")
+
+    def domain(e, depth=0):
+        """'cache' (all current entries) | 'new' (cache - snapshot) | 'wrong: ...'"""
+        if isinstance(e, ast.Call) and dotted(e.func) in ("list", "tuple", "set", "sorted") and e.args:
+            return domain(e.args[0], depth)
+        if isinstance(e, ast.Call) and isinstance(e.func, ast.Attribute) and e.func.attr in ("items", "keys", "copy"):
+            return domain(e.func.value, depth)
+        if dotted(e) == CACHE:
+            return "cache"
+        if dotted(e) == snap:
+            return "wrong: iterates the snapshot (entries that existed BEFORE the compilation)"
+        if isinstance(e, ast.BinOp) and isinstance(e.op, ast.Sub):
+            l, r = domain(e.left, depth), domain(e.right, depth)
+            if l == "cache" and r.startswith("wrong: iterates the snapshot"):
+                return "new"
+            return f"wrong: {src(e)[:70]} is not `cache - snapshot`"
+        if isinstance(e, ast.Name) and depth < 3:
+            defs = [a.value for a in walk_local(ex.node) if isinstance(a, ast.Assign) and dotted(a.targets[0]) == e.id]
+            if len(defs) == 1:
+                return domain(defs[0], depth + 1)
+        return f"wrong: {src(e)[:70]} not recognised"
+    d = domain(loop.iter)
+    run.ob(d in ("cache", "new"), "ConvertPythonInstance.__exit__", file=pa.rel, line=loop.lineno, detail="purge-domain", expected="every current cache entry (or cache - snapshot) is examined", found=d)
+    if d == "cache":
+        from .c07 import guards as _guards
+        g = _guards(ex.node, dels[0], pa.parents)
+        ok = any(x == f"if definition_id not in {snap}" for x in g)
+        run.ob(ok, "ConvertPythonInstance.__exit__", file=pa.rel, line=dels[0].lineno, detail="purge-selects-new", expected=f"entries not in {snap} are deleted", found=str([str(x) for x in g]))
+    run.end()
+
+
+def rule_snapshot(run):
+    from ..rules import snapshot
+    snapshot.run_rule(run, "F-SNAPSHOT")
+
+
+RULES = [rule_pairing, rule_kinds, rule_entityinfo, rule_return_stack, rule_order, rule_dynamic_ports, rule_definition_purge, rule_snapshot]
 
 LEVEL = "other"
 EXPLANATION = (
